@@ -433,6 +433,7 @@ func c13(r *Report, s *Sem) {
 			}
 		})
 	}
+	r.Import(s, "C19", "R3", "R12", "the high-level client releases the ended session on its own: every store of a new channel into Client.channel is preceded on all paths by a releasing call on the previous channel (closing it only after a new session could be established keeps the connection of the finished session while the server is down)", 1)
 }
 
 // selectArmBlock finds the block executed when select `sel` chose state i.
